@@ -16,7 +16,7 @@ checks = {
  "C03": ("seq+conc+types", "exploration", "model-based stateful PBT over acquire/release histories; oracle at first raw op of every acquisition and at every key hand-back",
    "Total allocation quantifies over all API compositions incl. error paths; generated histories with an exact held-set oracle reach those compositions.",
    "Sequential histories (1-2 threads, <= 14 steps); held-set read from the auditing raw locks."),
- "C04": ("seq+conc", "exploration", "model-based PBT: held multiset vs. leaf multiset of the spec after every acquisition, try_* never waits, closure count",
+ "C04": ("seq+conc+types", "exploration", "model-based PBT: held multiset vs. leaf multiset of the spec after every acquisition, try_* never waits, closure count",
    "All-or-nothing is checked after every generated acquisition over kinds x containers x nestings x pre-held patterns, including the rollback of every failing position.",
    "Reference semantics of a collection spec (flattened leaves) is the harness's own model; phantom holders emulate other threads in quiescent states."),
  "C05": ("seq+conc+types", "exploration", "release audit in the raw locks (foreign / double / wrong-mode / not-held), release parity per call, all-free-at-end",
@@ -28,13 +28,13 @@ checks = {
  "C07": ("seq+types", "exploration", "differential against a reference duplicate model over generated member lists (random + exhaustive <= 5 over 4 leaves); rustc verdicts for unchecked ctors",
    "Exactness is a for-all-inputs claim; the exhaustive slice is complete for lists <= 5 over 4 leaves, the random part covers nesting and wrappers; the compile-time half is decided by generated twin/offending programs.",
    "Reference model: a unit is a leaf or an owned collection; zero-sized owned collections sharing an address are not generated."),
- "C08": ("seq+conc", "exploration", "metamorphic: blocking acquisition sequences of differently arranged sorting collections must agree pairwise (acyclic precedence), be stable, keep owned groups contiguous",
+ "C08": ("seq+conc+types", "exploration", "metamorphic: blocking acquisition sequences of differently arranged sorting collections must agree pairwise (acyclic precedence), be stable, keep owned groups contiguous",
    "Acquisition order is invisible with real locks; the tracing raw lock exposes it and the metamorphic relation needs no knowledge of the actual sort key.",
    "Only relative order is asserted (not address order); sequences come from the trace of blocking raw acquisitions."),
- "C09": ("conc+seq", "exploration", "generated contenders x schedules; oracle: nothing held (outside the awaited lock's owned group) whenever a retrying call's blocking request is not grantable; completion under run-to-block",
+ "C09": ("conc+seq+types", "exploration", "generated contenders x schedules; oracle: nothing held (outside the awaited lock's owned group) whenever a retrying call's blocking request is not grantable; completion under run-to-block",
    "Hold-and-wait depends on which member is contended when; the scheduler-owned exploration checks the condition at every blocking point.",
    "Retry depth bounded by the schedule prefix (<= 48 choices) then run-to-block; 'eventually completes' is checked as bounded liveness."),
- "C10": ("seq+conc", "exploration", "model-based stateful PBT with a 3-state poison model per wrapper (Clean / Poisoned / Unspecified)",
+ "C10": ("seq+conc+types", "exploration", "model-based stateful PBT with a 3-state poison model per wrapper (Clean / Poisoned / Unspecified)",
    "Poisoning is a product of hold kinds x panic points x clear x observers; the model is compared after every step and at every member position.",
    "A panic under a shared hold leaves the state unspecified (the property is one-directional there); histories never mem::forget a Poisonable guard."),
  "C11": ("seq+conc", "exploration", "panic injection at every kind of critical section; held-set / release-parity / key oracles; CONC: waiters proceed",
@@ -72,7 +72,7 @@ m = {
  "engines": [
    {"name": "seq", "path": "harness/src/{interp,engine,gen,world,exec,vlock}.rs", "serves_properties": ["C02","C03","C04","C05","C06","C07","C08","C09","C10","C11","C12","C13","C17"], "kind_free_text": seq},
    {"name": "conc", "path": "harness/src/{exec,engine,gen}.rs", "serves_properties": ["C01","C02","C03","C04","C05","C08","C09","C10","C11","C17"], "kind_free_text": conc},
-   {"name": "types", "path": "harness/src/{tyeng,surface}.rs", "serves_properties": ["C01","C02","C03","C05","C06","C07","C13","C14","C15"], "kind_free_text": types + "; part of the families is generated from the public API of the tree under test (cargo rustdoc JSON): methods of hold types, constructors, key-less accessors"},
+   {"name": "types", "path": "harness/src/{tyeng,surface}.rs", "serves_properties": ["C01","C02","C03","C04","C05","C06","C07","C08","C09","C10","C13","C14","C15"], "kind_free_text": types + "; part of the families is generated from the public API of the tree under test (cargo rustdoc JSON): methods of hold types, constructors, key-less accessors"},
    {"name": "fuzz", "path": "fuzz/fuzz/fuzz_targets/{fuzz_seq,fuzz_conc,fuzz_eval}.rs, tools/fuzz.sh", "serves_properties": ["C01","C02","C03","C04","C05","C06","C07","C08","C09","C10","C11","C12","C13","C16","C17"], "kind_free_text": "libFuzzer (cargo-fuzz, ASan + LSan) over the same byte decoders, evaluators and oracles; thorough tier only, amplification; for C16 a reproduced sanitizer report is a violation (replay = the saved input)"},
    {"name": "drops", "path": "harness/src/{drops,quarantine}.rs", "serves_properties": ["C16"], "kind_free_text": "typed construction/destruction scenarios with drop-counting payloads"},
  ],
